@@ -157,6 +157,7 @@ def run_case(case):
                 seen.setdefault(j, i)
     # purity of queries: ask every trigger object, ask the others in between, ask again, and ask a fresh equivalent
     queries = []
+    late = []
     trigs = [i for i, x in enumerate(objs) if isinstance(x, TriggerObject)]
     for i in trigs[:6]:
         p = _get_producer(objs[i])
@@ -177,7 +178,17 @@ def run_case(case):
             c = prod_impl.query(fresh, dt, B) if fresh is not None else None
             orig = prod_impl.query(objs[i]._producer, dt, B)
             queries.append([i, dt, a, b, c, orig])
-    return {'ops': case['ops'], 'probes': case['probes'], 'snaps': snaps, 'shared': shared, 'queries': queries}
+        # a copy taken AFTER the object has been queried (what offset / only_on / group / JobBuilder.at do with a
+        # trigger that is already in use) answers like the object itself, also off the instants asked so far
+        q = _get_producer(objs[i])
+        for dt in case['probes']:
+            x = prod_impl.query(q, dt + 999_983, B)
+            y = prod_impl.query(objs[i]._producer, dt + 999_983, B)
+            if 'budget' in (x[0], y[0]):
+                break
+            late.append([i, dt + 999_983, x, y])
+    return {'ops': case['ops'], 'probes': case['probes'], 'snaps': snaps, 'shared': shared, 'queries': queries,
+            'late': late}
 
 
 def main() -> int:
